@@ -1,4 +1,4 @@
-import PlumpyModel.PM.Proof6
+import PlumpyModel.PM.Proof9
 /-!
 # C02 — all reports of a terminated process's outcome agree
 
@@ -9,8 +9,11 @@ KILLED ↦ KilledError, EXCEPTED e ↦ the exception `e` itself.
 
 Proved for every program, every number of awaited futures and every history of events (ticks in any order, pause, play,
 kill, resume, fail, call_soon callbacks, cancellation of the future, completion of awaitables).
-Not yet proved as a theorem (decided by the correspondence check and the Python monitor on every explored schedule):
-"step_until_terminated() returns" (the stepping task is done once the process terminated).
+"step_until_terminated() returns" is proved in two parts that are not yet joined by an invariant over histories
+(`C02_stepper_returns_full` states what is missing; the correspondence check and the Python monitor decide it on every
+explored schedule): from a terminated configuration whose stepping coroutine is not blocked on an unreleased future,
+finitely many wake-ups end it normally (`C02_stepper_returns_partial`); and the two transitions that could leave it
+blocked release it (`C02_termination_releases_pause`, `C02_leaving_waiting_completes_wait`: repairs G and J).
 -/
 namespace PMF
 
@@ -69,6 +72,38 @@ theorem C02_future_resolved_iff_terminated (P : Prog) (nf : Nat) (evs : List Ev)
       cases st <;> simp [outcomeOf] at hf <;> subst hf <;> exact ⟨(fun h => nomatch h), (fun h => nomatch h)⟩
     exact hne _ _ h
 
+
+/-- the full statement: in every reachable terminated configuration the stepping task ends after finitely many of its
+own wake-ups.  Not proved: it needs the invariant linking the coroutine's program counter to the current state object
+(`pc = awaitWaiting wf` ⇒ `wf` is the future of the current WAITING state or is completed, `pc = awaitPaused pf` ⇒ `pf`
+is the current pause future or is released, the interrupt action is never run twice) across all events. -/
+def C02_stepper_returns_full : Prop :=
+  ∀ (P : Prog) (nf : Nat) (evs : List Ev), terminal (run P (init nf) evs).st.label = true →
+    ∃ n, (ticks P n (run P (init nf) evs)).pc = .done
+
+/-- **step_until_terminated() returns (partial)**: from ANY terminated configuration in which the stepping coroutine has
+not crashed and is not blocked on an unreleased future (the pause future it awaits and the current one are released,
+the waiting future it awaits is completed), finitely many wake-ups of the stepping task end it normally. -/
+theorem C02_stepper_returns_partial (P : Prog) (c : Cfg) (ht : terminal c.st.label = true) (hcr : ∀ e, c.pc ≠ .crashed e)
+    (hpz : ∀ pf, c.paused = some pf → c.pfs[pf]? = some true)
+    (hap : ∀ pf, c.pc = .awaitPaused pf → c.pfs[pf]? = some true)
+    (haw : ∀ wf, c.pc = .awaitWaiting wf → ∃ w, c.wfs[wf]? = some w ∧ w ≠ .pending) :
+    ∃ n, (ticks P n c).pc = .done :=
+  stepper_returns P c ht hcr hpz hap haw
+
+/-- termination releases a stepping coroutine that is blocked on the pause (repair G): after `on_terminated` the current
+pause future is resolved -/
+theorem C02_termination_releases_pause (d : Cfg) (pf : Nat) (hp : (onTerminated d).paused = some pf)
+    (hv : (d.pfs[pf]?).isSome = true) : (onTerminated d).pfs[pf]? = some true :=
+  onTerminated_releases_pause d pf hp hv
+
+/-- leaving the WAITING state (kill, fail, a failing callback) completes its wait, so a step still awaiting it returns
+(repair J) -/
+theorem C02_leaving_waiting_completes_wait (c : Cfg) (fn wf : Nat) (wk : Option WF) (aw : List (Nat × Nat))
+    (hst : c.st = .waiting fn wf wk aw) (hv : (c.wfs[wf]?).isSome = true) :
+    ∃ w, (exitState c).wfs[wf]? = some w ∧ w ≠ .pending :=
+  exitState_completes_wait c fn wf wk aw hst hv
+
 -- non-vacuity: each terminal state is reached by a concrete history, with kill while paused and kill during a step
 section
 private def async1 : Prog := fun _ _ _ _ => ⟨1, .ret (.stop (some 3) true)⟩
@@ -76,6 +111,8 @@ example : (run async1 (init 0) [.tick, .tick]).st = .finished (some 3) true := b
 example : (run async1 (init 0) [.pause, .kill]).st = .killed := by decide +kernel
 example : (run async1 (init 0) [.tick, .kill, .tick]).st = .killed := by decide +kernel
 example : (run async1 (init 0) [.tick, .fail (.user 2), .tick]).st = .excepted (.user 2) := by decide +kernel
+-- kill while paused: the stepping task, blocked on the pause, ends after one wake-up
+example : (ticks async1 1 (run async1 (init 0) [.tick, .pause, .tick, .kill])).pc = .done := by decide +kernel
 end
 
 end PMF
